@@ -127,19 +127,38 @@ class VQueue:
         return x
 
 
+def _transportable(t):
+    """multiprocessing sends a worker's result / exception to the parent by pickling it; if the parent cannot unpickle it the
+    result-handler thread dies and the job never becomes ready (AsyncResult.get() blocks for ever)"""
+    import pickle
+
+    if not t.done:
+        return False
+    if getattr(t, "_transport", None) is None:
+        try:
+            obj = t.exc if t.exc is not None else t.result
+            back = pickle.loads(pickle.dumps(obj))
+            if t.exc is not None:
+                t.exc_received = back
+            t._transport = True
+        except BaseException:  # noqa
+            t._transport = False
+    return t._transport
+
+
 class VResult:
     def __init__(self, s, t):
         self.s = s
         self.t = t
 
     def get(self, timeout=None):
-        self.s.point(lambda: self.t.done)
+        self.s.point(lambda: _transportable(self.t))
         if self.t.exc:
-            raise self.t.exc
+            raise self.t.exc_received
         return self.t.result
 
     def wait(self, timeout=None):
-        self.s.point(lambda: self.t.done)
+        self.s.point(lambda: _transportable(self.t))
 
     def ready(self):
         return self.t.done
